@@ -267,4 +267,230 @@ def driver : Proto.Driver := { σ := DSt, init := {}, step := drive }
 
 end Once
 
+/-! ## enumerable_thread_specific / combinable: `ets_base::table_lookup`
+
+One model step of a thread = one atomic access of `table_lookup` (to `my_root`, `my_count` or a slot's `key`), in
+program order.  The chain of arrays is kept OLDEST FIRST (`arrs[j]`, `j` = number of arrays that were already
+published when it was pushed); the root is the last one, `r->next` of array `j` is array `j-1` (`a->next = r` is set
+before the publishing CAS and the CAS succeeds only if the root still is `r`), a pointer to array `j` is printed as
+`j+1` and `nullptr` as 0.  Thread `t` has key `t+1` (0 = empty slot) and hash `h` (a parameter: `std::hash` of the
+real key).  `(i+1) & mask` is modelled as `(i+1) % 2^lg_size`.  `create_local()` (which touches only `my_locals`) is
+merged with the `++my_count` that follows it; element pointers are positions in `my_locals` (1-based).  Arrays that
+lose the publishing race are thread-local and freed (`deallocate(a)`), they never appear in the state. -/
+namespace Ets
+
+structure Arr where
+  lg   : Nat
+  keys : List Nat        -- length 2^lg; 0 = empty
+  ptrs : List Nat
+  deriving Repr, DecidableEq
+
+def Arr.size (a : Arr) : Nat := 2 ^ a.lg
+def Arr.key (a : Arr) (i : Nat) : Nat := a.keys.getD i 0
+def Arr.ptr (a : Arr) (i : Nat) : Nat := a.ptrs.getD i 0
+def Arr.empty (lg : Nat) : Arr := ⟨lg, List.replicate (2 ^ lg) 0, List.replicate (2 ^ lg) 0⟩
+
+/-- `array::start(h)` = `h >> (8*sizeof(size_t) - lg_size)` -/
+def start (B : Nat) (h lg : Nat) : Nat := h / 2 ^ (B - lg)
+
+/-- `while( c > size_t(1)<<(s-1) ) ++s;` -/
+def growLg (c : Nat) : Nat → Nat → Nat
+  | 0, s => s
+  | fuel + 1, s => if c > 2 ^ (s - 1) then growLg c fuel (s + 1) else s
+
+inductive Pc where
+  | idle      -- next: `my_root.load(acquire)` at the head of table_lookup
+  | probe     -- `s.empty()`: key.load of slot (r,i)
+  | mtch      -- `s.match(k)`: key.load of slot (r,i)
+  | top       -- `r == my_root.load(acquire)` after a match
+  | cnt       -- `create_local()`; `++my_count`
+  | root2     -- `my_root.load(acquire)` after the increment
+  | push      -- `my_root.compare_exchange_strong(new_r, a)`
+  | ins       -- insert: `my_root.load(acquire)`
+  | insProbe  -- insert: `s.empty()`: key.load of slot (r,i)
+  | claim     -- insert: `s.claim(k)`: key.compare_exchange_strong(0, k); `s.ptr = found`
+  deriving Repr, DecidableEq
+
+structure Th where
+  h       : Nat                   -- hash of the thread's key
+  todo    : Nat                   -- lookups still to perform (the one in progress included)
+  pc      : Pc := .idle
+  r       : Nat := 0              -- array under the cursor (position in the chain, oldest = 0)
+  i       : Nat := 0              -- slot index under the cursor
+  c       : Nat := 0              -- the value `++my_count` returned to this thread
+  s       : Nat := 0              -- lg_size of the array this thread allocated
+  nr      : Nat := 0              -- grow loop: the root the new array is to be chained to (pointer: 0 = nullptr)
+  found   : Nat := 0              -- `found`
+  ex      : Bool := false         -- `exists`
+  created : Nat := 0              -- ghost: create_local() calls made by this thread
+  elem    : Nat := 0              -- ghost: the element this thread created last (0 = none)
+  rets    : List (Nat × Bool) := []   -- (pointer, exists) returned by finished lookups, newest first
+  deriving Repr, DecidableEq
+
+structure St where
+  arrs   : List Arr := []         -- oldest first; root = last
+  count  : Nat := 0
+  locals : List Tid := []         -- my_locals: creator of element e is locals[e-1]
+  ths    : List Th := []
+  bad    : Bool := false          -- ghost: null root dereferenced at insert / access outside an array
+  deriving Repr, DecidableEq
+
+structure Ev where
+  kind : String
+  var  : String
+  a    : String
+  b    : String
+  ok   : Bool
+  deriving Repr, DecidableEq
+
+def Th.ret (t : Th) (p : Nat) (ex : Bool) : Th :=
+  { t with todo := t.todo - 1, pc := .idle, rets := (p, ex) :: t.rets }
+
+/-- One atomic access of thread `t`.  `B` = bits of `size_t`, `L0` = lg_size of the first array. -/
+def stepEv (B L0 : Nat) (s : St) (t : Tid) : St × Option Ev :=
+  match s.ths[t]? with
+  | none => (s, none)
+  | some th =>
+    let k := t + 1
+    let R := s.arrs.length
+    let setTh (th' : Th) : St := { s with ths := s.ths.set t th' }
+    let ld (var a : String) : Option Ev := some ⟨"load", var, a, "0", true⟩
+    match th.pc with
+    | .idle =>
+        if th.todo = 0 then (s, none)
+        else match s.arrs[R - 1]? with
+          | none => (setTh { th with pc := .cnt }, ld "root" "0")
+          | some a => (setTh { th with pc := .probe, r := R - 1, i := start B th.h a.lg }, ld "root" (toString R))
+    | .probe =>
+        match s.arrs[th.r]? with
+        | none => ({ s with bad := true }, none)
+        | some a =>
+          let key := a.key th.i
+          let ev := ld s!"key:{th.r}:{th.i}" (toString key)
+          if key = 0 then
+            if th.r = 0 then (setTh { th with pc := .cnt }, ev)
+            else match s.arrs[th.r - 1]? with
+              | none => ({ s with bad := true }, none)
+              | some a' => (setTh { th with r := th.r - 1, i := start B th.h a'.lg }, ev)
+          else (setTh { th with pc := .mtch }, ev)
+    | .mtch =>
+        match s.arrs[th.r]? with
+        | none => ({ s with bad := true }, none)
+        | some a =>
+          let key := a.key th.i
+          let ev := ld s!"key:{th.r}:{th.i}" (toString key)
+          if key = k then (setTh { th with pc := .top }, ev)
+          else (setTh { th with pc := .probe, i := (th.i + 1) % a.size }, ev)
+    | .top =>
+        match s.arrs[th.r]? with
+        | none => ({ s with bad := true }, none)
+        | some a =>
+          if th.r + 1 = R then (setTh (th.ret (a.ptr th.i) true), ld "root" (toString R))
+          else (setTh { th with pc := .ins, found := a.ptr th.i, ex := true }, ld "root" (toString R))
+    | .cnt =>
+        let e := s.locals.length + 1
+        ({ s with locals := s.locals ++ [t], count := s.count + 1,
+                  ths := s.ths.set t { th with pc := .root2, found := e, ex := false, c := s.count + 1,
+                                               created := th.created + 1, elem := e } },
+         some ⟨"fadd", "count", toString s.count, toString (s.count + 1), true⟩)
+    | .root2 =>
+        match s.arrs[R - 1]? with
+        | none => (setTh { th with pc := .push, nr := 0, s := growLg th.c th.c L0 }, ld "root" "0")
+        | some a =>
+          if th.c > a.size / 2 then (setTh { th with pc := .push, nr := R, s := growLg th.c th.c a.lg }, ld "root" (toString R))
+          else (setTh { th with pc := .ins }, ld "root" (toString R))
+    | .push =>
+        if R = th.nr then
+          ({ s with arrs := s.arrs ++ [Arr.empty th.s], ths := s.ths.set t { th with pc := .ins } },
+           some ⟨"cas", "root", toString th.nr, toString (R + 1), true⟩)
+        else
+          let ev : Option Ev := some ⟨"cas", "root", toString th.nr, toString R, false⟩
+          match s.arrs[R - 1]? with
+          | none => ({ s with bad := true }, none)
+          | some a =>
+            if a.lg ≥ th.s then (setTh { th with pc := .ins }, ev)
+            else (setTh { th with nr := R }, ev)
+    | .ins =>
+        match s.arrs[R - 1]? with
+        | none => ({ s with bad := true }, none)
+        | some a => (setTh { th with pc := .insProbe, r := R - 1, i := start B th.h a.lg }, ld "root" (toString R))
+    | .insProbe =>
+        match s.arrs[th.r]? with
+        | none => ({ s with bad := true }, none)
+        | some a =>
+          let key := a.key th.i
+          let ev := ld s!"key:{th.r}:{th.i}" (toString key)
+          if key = 0 then (setTh { th with pc := .claim }, ev)
+          else (setTh { th with i := (th.i + 1) % a.size }, ev)
+    | .claim =>
+        match s.arrs[th.r]? with
+        | none => ({ s with bad := true }, none)
+        | some a =>
+          let key := a.key th.i
+          if key = 0 then
+            ({ s with arrs := s.arrs.set th.r { a with keys := a.keys.set th.i k, ptrs := a.ptrs.set th.i th.found },
+                      ths := s.ths.set t (th.ret th.found th.ex) },
+             some ⟨"cas", s!"key:{th.r}:{th.i}", "0", toString k, true⟩)
+          else
+            (setTh { th with pc := .insProbe, i := (th.i + 1) % a.size },
+             some ⟨"cas", s!"key:{th.r}:{th.i}", "0", toString key, false⟩)
+
+def step (B L0 : Nat) (s : St) (t : Tid) : St := (stepEv B L0 s t).1
+
+/-- `hs[i]` = (hash of thread i's key, number of lookups thread i performs). -/
+def init (hs : List (Nat × Nat)) : St := { ths := hs.map (fun p => { h := p.1, todo := p.2 }) }
+
+def sys (B L0 : Nat) (hs : List (Nat × Nat)) : Sys St := { init := init hs, step := step B L0 }
+
+/-- elements visited by iteration / combine_each over the container (`my_locals` in creation order) with their creators -/
+def iterate (s : St) : List (Nat × Tid) := (List.range s.locals.length).map (fun e => (e + 1, s.locals.getD e 0))
+
+/-! ### line-protocol driver (trace replay) -/
+open Proto
+
+structure DSt where
+  B : Nat := 64
+  L0 : Nat := 2
+  st : St := {}
+
+/-- canonical name of an element pointer: `<creator+1>.<n>` (n-th element created by that thread), `0` = null -/
+def elemName (s : St) (p : Nat) : String :=
+  if p = 0 then "0" else
+  match s.locals[p - 1]? with
+  | none => "?"
+  | some c => s!"{c + 1}.{(s.locals.take (p - 1)).count c}"
+
+/-- `cfg <B> <L0>`; `thread <hash> <lookups>` appends a thread; `s <tid>` = next atomic access of the thread, prints
+`<kind> <var> <a> <b> <ok> | <lookups left> <ptr:exists of finished lookups, oldest first>`;
+`state` prints `<#arrays> <lg sizes oldest first> | <count> | <creators in my_locals order> | <bad>`. -/
+def drive (d : DSt) (ws : List String) : DSt × String :=
+  match ws with
+  | ["cfg", b, l] => match nat? b, nat? l with
+      | some b, some l => ({ d with B := b, L0 := l }, "ok")
+      | _, _ => (d, "bad-op")
+  | ["thread", h, n] => match nat? h, nat? n with
+      | some h, some n => ({ d with st := { d.st with ths := d.st.ths ++ [{ h := h % 2 ^ d.B, todo := n }] } }, "ok")
+      | _, _ => (d, "bad-op")
+  | ["s", t] => match nat? t with
+      | some t =>
+        let (st', ev) := stepEv d.B d.L0 d.st t
+        match st'.ths[t]? with
+        | some th =>
+          let e := match ev with
+            | some e => s!"{e.kind} {e.var} {e.a} {e.b} {showBool e.ok}"
+            | none => "-"
+          let rs := th.rets.reverse.map (fun (p : Nat × Bool) => s!"{elemName st' p.1}:{showBool p.2}")
+          ({ d with st := st' }, s!"{e} | {th.todo} {" ".intercalate rs}")
+        | none => (d, "bad-tid")
+      | none => (d, "bad-op")
+  | ["state"] =>
+      let s := d.st
+      (d, s!"{s.arrs.length} {showNats (s.arrs.map (·.lg))} | {s.count} | {showNats (s.locals.map (· + 1))} | {showBool s.bad}")
+  | ["reset"] => ({}, "ok")
+  | _ => (d, "bad-op")
+
+def driver : Proto.Driver := { σ := DSt, init := {}, step := drive }
+
+end Ets
+
 end TbbVerif.C19
